@@ -4,7 +4,7 @@
    C18_close_sqrt_real gives the reading over the reals. *)
 From Coq Require Import QArith Qabs Reals Qreals.
 From EsVerif.Common Require Import Base.
-From EsVerif.C18 Require Import Model Spec QLemmas MomProofs MedianProofs ClipProofs InterpProofs CorProofs Gen GenProofs.
+From EsVerif.C18 Require Import Model Spec QLemmas MomProofs MedianProofs ClipProofs InterpProofs CorProofs ClipReal GsProofs BoxProofs Gen GenProofs.
 Open Scope Q_scope.
 
 (* ------------------------------------------------------------------ weighted moments *)
@@ -117,6 +117,15 @@ Theorem C18_sigma_clip_subset_unique : forall weighted nsig niter all s1 s2,
   clip_fixpoint weighted nsig niter all s1 -> clip_fixpoint weighted nsig niter all s2 -> s1 = s2.
 Proof. exact clip_fixpoint_unique. Qed.
 
+(* over the reals: one round keeps exactly the points STRICTLY within nsig deviations
+   (deviation = sqrt of the subset's variance) of the subset's mean *)
+Theorem C18_sigma_clip_round_real : forall weighted nsig cur p,
+  0 <= nsig -> (weighted = true -> forall q, In q cur -> 0 <= p_w q) ->
+  let st := sc_stats weighted cur in
+  (In p (filter (within nsig st) cur)
+   <-> In p cur /\ (Rabs (Q2R (p_x p) - Q2R (c_mean st)) < Q2R nsig * sqrt (Q2R (c_var st)))%R).
+Proof. exact clip_round_real. Qed.
+
 (* ------------------------------------------------------------------ interpolation *)
 (* strictly increasing table x of >= 2 points, values v *)
 Theorem C18_interplin_piecewise : forall v x, incr x -> (2 <= length x)%nat ->
@@ -168,6 +177,30 @@ Theorem C18_get_stats_plain : forall x,
        /\ v == Sum (map (fun y => (y - Sum x / qlen x) * (y - Sum x / qlen x)) x) / qlen x
        /\ e2 == v / qlen x.
 Proof. exact get_stats_1d_plain. Qed.
+
+(* N-by-d data: every column of every reported value is the 1-d summary of that column *)
+Theorem C18_get_stats_Nd_plain : forall rows d,
+  rows <> [] -> ncols rows = d -> rect rows d = true ->
+  exists g, get_stats (M2 rows) None None None = Ok g
+    /\ forall j, (j < d)%nat ->
+         let x := col j rows in
+         is_min x (nd_get (g_min g) j) /\ is_max x (nd_get (g_max g) j)
+         /\ nd_get (g_mean g) j = c_mean (plain_stats x)
+         /\ nd_get (g_var g) j = c_var (plain_stats x)
+         /\ nd_get (g_err2 g) j = c_err2 (plain_stats x).
+Proof. exact get_stats_Nd_plain. Qed.
+
+Theorem C18_get_stats_Nd_weighted : forall rows d wts,
+  rows <> [] -> ncols rows = d -> rect rows d = true -> weights_fit rows d wts ->
+  exists g, get_stats (M2 rows) (Some wts) None None = Ok g
+    /\ forall j, (j < d)%nat ->
+         let x := col j rows in
+         let r := wmom1 x (wcol_of wts j) None true true in
+         is_min x (nd_get (g_min g) j) /\ is_max x (nd_get (g_max g) j)
+         /\ nd_get (g_mean g) j = m_mean r
+         /\ Some (nd_get (g_var g) j) = m_var r
+         /\ nd_get (g_err2 g) j = m_err2 r.
+Proof. exact get_stats_Nd_weighted. Qed.
 
 (* ------------------------------------------------------------------ covariance <-> correlation *)
 (* cor[i,j] = cov[i,j]/sqrt(cov[i,i] cov[j,j]), returned as the pair (cov[i,j], cov[i,i] cov[j,j]) *)
@@ -352,10 +385,15 @@ Proof.
   split; [exact gen_cov2cor_entries|]. split; [exact gen_cov_diag_rule|exact gen_cor2cov_entries].
 Qed.
 
-(* boxcar_average: window weight 1/N and the slice offset N-1 *)
-Theorem C18_gen_boxcar : forall N,
-  gen_boxcar_skip N = (N - 1)%Z /\ gen_boxcar_weight (inject_Z N) == 1 / inject_Z N.
-Proof. exact gen_boxcar_consts. Qed.
+(* boxcar_average: the model's window mean is numpy's 'full' convolution (conv_full: out[j] =
+   sum_i x[i] k[j-i]) with the kernel of N weights 1/N, sliced at the source's offset N-1 *)
+Theorem C18_gen_boxcar : forall x N,
+  (0 < N)%Z -> x <> [] ->
+  exists out, boxcar_average x N = Ok out /\ length out = length x
+    /\ forall k, (k < length x)%nat ->
+         nth k out 0 == conv_full x (repeat (gen_boxcar_weight (inject_Z N)) (Z.to_nat N))
+                                  (k + Z.to_nat (gen_boxcar_skip N)).
+Proof. exact gen_boxcar_convolution. Qed.
 
 (* ------------------------------------------------------------------ non-vacuity *)
 Fixpoint forallb2_eq (a b : list Q) : bool :=
